@@ -91,8 +91,10 @@ class Prov:
                 continue
             rest = proj[len(dproj):] if proj[: len(dproj)] == dproj else ()
             c = self.body.call_at[bb]
+            if self._never_success(c, rest):
+                continue
             if self._is_look_through(c) and c.args:
-                out |= self._with_proj(self.origins(c.args[0]), rest)
+                out |= self._origins_p(c.args[0], rest)
                 out.add(("via", c.name, bb))
             else:
                 out.add(("call", bb, rest))
@@ -102,6 +104,32 @@ class Prov:
             out.add(("local", l, proj))
         self._memo[key] = out
         return out
+
+    def _origins_p(self, x, proj):
+        """origins(x) with `proj` applied to x first, so that the projection is pushed through aggregates
+        (`Ok(v)` handed to `?`: the requested `.0` is v) instead of being appended to whatever x derives from."""
+        if not proj:
+            return set(self.origins(x))
+        if x is not None and x.get("k") in ("copy", "move"):
+            return set(self.place_origins(x["place"]["l"], _strip(x["place"]["p"]) + tuple(proj)))
+        return self._with_proj(self.origins(x), proj)
+
+    def _origins_at_p(self, x, proj, bb, pos, stack):
+        if not proj:
+            return set(self.origins_at(x, bb, pos, stack))
+        if x is not None and x.get("k") in ("copy", "move"):
+            return set(self._place_at(x["place"]["l"], _strip(x["place"]["p"]) + tuple(proj), bb, pos, stack or set()))
+        return self._with_proj(self.origins_at(x, bb, pos, stack), proj)
+
+    @staticmethod
+    def _never_success(c, proj):
+        """`FromResidual::from_residual` builds the failure value of a `?` (Err / None): the payload of the success
+        variant (what `?` hands on: Continue / Ok / Some) never derives from it."""
+        if not proj or not ((c.callee or "").endswith("FromResidual::from_residual")
+                            or (c.name or "").endswith("::from_residual")):
+            return False
+        p0 = proj[0]
+        return p0.startswith("dc") and p0.split(":", 1)[-1] in ("Continue", "Ok", "Some")
 
     def _is_look_through(self, c):
         n = c.name or ""
@@ -126,11 +154,11 @@ class Prov:
     def _rv_origins(self, rv, proj, bb, idx):
         k = rv["k"]
         if k == "use":
-            return self._with_proj(self.origins(rv["op"]), proj)
+            return self._origins_p(rv["op"], proj)
         if k in ("ref", "rawptr"):
             return self.place_origins(rv["place"]["l"], _strip(rv["place"]["p"]) + tuple(proj))
         if k == "cast":
-            out = self._with_proj(self.origins(rv["op"]), proj)
+            out = self._origins_p(rv["op"], proj)
             out.add(("op", "cast:" + rv["cast"] + ":" + rv["ty"], bb, idx))
             return out
         if k == "binop":
@@ -155,7 +183,7 @@ class Prov:
                 if p and p[0].startswith("f") and p[0][1:].isdigit():
                     fi = int(p[0][1:])
                     if fi < len(rv["ops"]):
-                        return self._with_proj(self.origins(rv["ops"][fi]), tuple(p[1:]))
+                        return self._origins_p(rv["ops"][fi], tuple(p[1:]))
             return {("agg", bb, idx, tuple(proj))}
         return {("unknown", k, bb, idx)}
 
@@ -237,8 +265,10 @@ class Prov:
             dproj, rv = payload
             return self._rv_origins_at(rv, proj, sbb, spos, stack)
         c = self.body.call_at[sbb]
+        if self._never_success(c, proj):
+            return set()
         if self._is_look_through(c) and c.args:
-            out = self._with_proj(self.origins_at(c.args[0], sbb, spos, stack), proj)
+            out = self._origins_at_p(c.args[0], proj, sbb, spos, stack)
             out.add(("via", c.name, sbb))
             return out
         return {("call", sbb, tuple(proj))}
@@ -246,11 +276,11 @@ class Prov:
     def _rv_origins_at(self, rv, proj, bb, idx, stack):
         k = rv["k"]
         if k == "use":
-            return self._with_proj(self.origins_at(rv["op"], bb, idx, stack), proj)
+            return self._origins_at_p(rv["op"], proj, bb, idx, stack)
         if k in ("ref", "rawptr"):
             return self._place_at(rv["place"]["l"], _strip(rv["place"]["p"]) + tuple(proj), bb, idx, stack)
         if k == "cast":
-            out = self._with_proj(self.origins_at(rv["op"], bb, idx, stack), proj)
+            out = self._origins_at_p(rv["op"], proj, bb, idx, stack)
             out.add(("op", "cast:" + rv["cast"] + ":" + rv["ty"], bb, idx))
             return out
         if k == "binop":
@@ -272,7 +302,7 @@ class Prov:
             if p and p[0].startswith("f") and p[0][1:].isdigit():
                 fi = int(p[0][1:])
                 if fi < len(rv["ops"]):
-                    return self._with_proj(self.origins_at(rv["ops"][fi], bb, idx, stack), tuple(p[1:]))
+                    return self._origins_at_p(rv["ops"][fi], tuple(p[1:]), bb, idx, stack)
         return self._rv_origins(rv, proj, bb, idx)
 
     def call_arg_origins(self, c, i):
